@@ -206,6 +206,8 @@ def run(name, script, total, start=0, limit=None, warm=0, batch=2, cap=1000, see
     except StepAfterDone as e:
         res["raised"] = "StepAfterDone: " + str(e)
     snaps.append(snapshot(mods))
+    import jax
+    jax.clear_caches()        # hundreds of runs in one process otherwise exhaust the JIT's code memory ("Unable to allocate section memory")
     out_obj = locals().get("out")
     if out_obj is not None and hasattr(out_obj, "_fields"):
         res["result_modules"] = {f: getattr(out_obj, f) for f in out_obj._fields if isinstance(getattr(out_obj, f), (nnx.Module, nnx.Optimizer))}
